@@ -8,6 +8,7 @@ import (
 	"encoding/json"
 	"flag"
 	"fmt"
+	"golang.org/x/tools/go/ssa"
 	"os"
 	"path/filepath"
 	"sort"
@@ -128,6 +129,8 @@ func cmdCheck(args []string) int {
 		for _, be := range w.bindErrors(*prop) {
 			problems = append(problems, be)
 		}
+		obls = append(obls, w.callerObligations(*prop)...)
+		obls = append(obls, w.lemmaObligations(*prop)...)
 		for _, fn := range w.scopeFunctions() {
 			if !w.isStandalone(fn) {
 				continue
@@ -169,12 +172,16 @@ func cmdCheck(args []string) int {
 			}
 		}
 	}
-	outDir := filepath.Join(verifDir, "out", *prop)
+	outBase := verifDir
+	if v := os.Getenv("GOCV_OUT"); v != "" {
+		outBase = v // scratch runs (seeded changes, self-tests) must not overwrite the real evidence
+	}
+	outDir := filepath.Join(outBase, "out", *prop)
 	os.RemoveAll(outDir)
 	os.MkdirAll(outDir, 0o755)
 	solveAll(obls, outDir, tmo, mode)
 
-	replayDir := filepath.Join(verifDir, "replay_out", *prop)
+	replayDir := filepath.Join(outBase, "replay_out", *prop)
 	os.RemoveAll(replayDir)
 	os.MkdirAll(replayDir, 0o755)
 
@@ -299,9 +306,9 @@ func cmdCheck(args []string) int {
 	if len(samples) == 0 {
 		ev.Coverage["samples"] = []map[string]interface{}{{"note": "all obligations of this property were decided statically or failed"}}
 	}
-	os.MkdirAll(filepath.Join(verifDir, "evidence"), 0o755)
+	os.MkdirAll(filepath.Join(outBase, "evidence"), 0o755)
 	b, _ := json.MarshalIndent(ev, "", " ")
-	os.WriteFile(filepath.Join(verifDir, "evidence", *prop+".json"), b, 0o644)
+	os.WriteFile(filepath.Join(outBase, "evidence", *prop+".json"), b, 0o644)
 	for _, l := range lines {
 		fmt.Println(l)
 	}
@@ -426,6 +433,99 @@ func globalAssumptions(prop string) []string {
 	switch prop {
 	case "C10":
 		out = append(out, "T7: lock discipline + protection classes imply data-race freedom (lock-set theorem, Go memory model)", "T8: each guarded object belongs to one lock instance", "T9: publication through cc.UpdateState / goroutine start establishes happens-before for init_once and immutable fields")
+	}
+	return out
+}
+
+// callerObligations: static call-graph obligations from `callers` directives (who may cause an effect).
+func (w *World) callerObligations(prop string) []*Obligation {
+	var out []*Obligation
+	for _, cd := range w.spec.Callers {
+		tagged := false
+		for _, t := range cd.Tags {
+			if t == prop {
+				tagged = true
+			}
+		}
+		if !tagged {
+			continue
+		}
+		allowed := map[string]bool{}
+		for _, a := range cd.Allowed {
+			allowed[a] = true
+		}
+		var bad []string
+		found := false
+		for _, f := range w.scopeFunctions() {
+			for _, b := range f.Blocks {
+				for _, in := range b.Instrs {
+					ci, ok := in.(interface{ Common() *ssa.CallCommon })
+					if !ok {
+						continue
+					}
+					name := ""
+					if c := ci.Common().StaticCallee(); c != nil {
+						name = shortFnName(c)
+					} else if ci.Common().IsInvoke() {
+						name = ci.Common().Method.Name()
+					}
+					if name != cd.Fn {
+						continue
+					}
+					found = true
+					if !allowed[shortFnName(f)] {
+						bad = append(bad, shortFnName(f))
+					}
+				}
+			}
+		}
+		o := &Obligation{Name: "callers[" + cd.Label + "]:" + cd.Fn, Kind: "contract", Tags: cd.Tags, Fn: cd.Fn, Static: "ok"}
+		if len(bad) > 0 {
+			sort.Strings(bad)
+			o.Static = "called from functions outside the allowed set: " + strings.Join(bad, ", ")
+		} else if !found {
+			o.Static = "no call of " + cd.Fn + " found (contract no longer binds)"
+		}
+		out = append(out, o)
+	}
+	return out
+}
+
+func shortFnName(f *ssa.Function) string {
+	k := shortFnKey(fnKey(f))
+	if i := strings.LastIndex(k, ")."); i >= 0 {
+		return k[i+2:]
+	}
+	return k
+}
+
+// lemmaObligations: pure lemmas (no program state) proved as their own obligations.
+func (w *World) lemmaObligations(prop string) []*Obligation {
+	var out []*Obligation
+	for _, l := range w.spec.Lemmas {
+		tagged := false
+		for _, t := range l.Tags {
+			if t == prop {
+				tagged = true
+			}
+		}
+		if !tagged {
+			continue
+		}
+		var anyFn *ssa.Function
+		for _, f := range w.scopeFunctions() {
+			anyFn = f
+			break
+		}
+		e := newEngine(w, anyFn)
+		st := &State{pc: "true", locals: map[*ssa.Alloc][]string{}, regs: map[ssa.Value]*Val{}, heap: map[string]string{}}
+		env := &SpecEnv{e: e, st: st, vars: map[string]*SV{}, pkg: l.Pkg}
+		sv := env.eval(l.Expr)
+		g := "false"
+		if sv != nil && len(sv.V.L) == 1 {
+			g = sv.V.L[0]
+		}
+		out = append(out, &Obligation{Name: "lemma[" + l.Label + "]", Kind: "contract", Tags: l.Tags, Fn: "lemma", c: e.c, PC: st.pc, Goal: g})
 	}
 	return out
 }
